@@ -41,9 +41,12 @@ impl Parameters {
         let docs = YamlLoader::load_from_str(&contents).map_err(
             |e| ParameterError::ParseError(e.to_string()))?;
 
-        let doc = &docs[0];
+        let doc = docs.get(0).ok_or_else(
+            || ParameterError::ParseError("Empty YAML document".into()))?;
         let params = &doc["opw_kinematics_geometric_parameters"];
-        let dof = params["dof"].as_i64().unwrap_or(6) as i8;
+        // 'dof' may be given inside the geometric parameters or at the top level
+        // (where the documentation shows it and to_yaml prints it).
+        let dof = params["dof"].as_i64().or_else(|| doc["dof"].as_i64()).unwrap_or(6) as i8;
         let mut sign_corrections = Self::read_sign_corrections(&doc["opw_kinematics_joint_sign_corrections"])?;
         if dof == 5 {
             // Block J6 at 0 by default for 5DOF robot.
@@ -51,19 +54,26 @@ impl Parameters {
         }
 
         Ok(Parameters {
-            a1: params["a1"].as_f64().ok_or_else(|| ParameterError::MissingField("a1".into()))?,
-            a2: params["a2"].as_f64().ok_or_else(|| ParameterError::MissingField("a2".into()))?,
-            b: params["b"].as_f64().ok_or_else(|| ParameterError::MissingField("b".into()))?,
-            c1: params["c1"].as_f64().ok_or_else(|| ParameterError::MissingField("c1".into()))?,
-            c2: params["c2"].as_f64().ok_or_else(|| ParameterError::MissingField("c2".into()))?,
-            c3: params["c3"].as_f64().ok_or_else(|| ParameterError::MissingField("c3".into()))?,
-            c4: params["c4"].as_f64().ok_or_else(|| ParameterError::MissingField("c4".into()))?,
+            a1: Self::read_length(params, "a1")?,
+            a2: Self::read_length(params, "a2")?,
+            b: Self::read_length(params, "b")?,
+            c1: Self::read_length(params, "c1")?,
+            c2: Self::read_length(params, "c2")?,
+            c3: Self::read_length(params, "c3")?,
+            c4: Self::read_length(params, "c4")?,
             dof: dof,
             offsets: Self::read_offsets(&doc["opw_kinematics_joint_offsets"])?,
             sign_corrections: sign_corrections,
         })
     }
 
+
+    /// Lengths may be written as reals or as integers (0 rather than 0.0, as to_yaml prints them).
+    fn read_length(params: &Yaml, name: &str) -> Result<f64, ParameterError> {
+        params[name].as_f64()
+            .or_else(|| params[name].as_i64().map(|v| v as f64))
+            .ok_or_else(|| ParameterError::MissingField(name.into()))
+    }
 
     fn read_sign_corrections(doc: &Yaml) -> Result<[i8; 6], ParameterError> {
         // Store the temporary vector in a variable for longer lifetime
